@@ -19,8 +19,8 @@ structure FNode (V : Type) where
 
 instance {V : Type} : Inhabited (FNode V) := ⟨⟨#[], none⟩⟩
 
-def rootId : Nat := 0
-def deadId : Nat := 1
+def rootId : Nat := Gen.rootStateId
+def deadId : Nat := Gen.deadStateId
 
 mutual
 def Trie.flattenInto : Trie V → Array (FNode V) → Nat × Array (FNode V)
@@ -209,12 +209,13 @@ structure Cfg where
   kind : Nat
   nfb : Nat
 
-def u24Max : Nat := 16777215
-def bytewiseBlockLen : Nat := 256
+def u24Max : Nat := Gen.u24Max
+def bytewiseBlockLen : Nat := Gen.blockLen
 
 def stDefaultB : St := ⟨0, 0, 0, 0⟩
 /-- `State::default()` of the char-wise automaton: CHECK and FAIL are the dead index. -/
-def stDefaultC : St := ⟨0, deadIdx, deadIdx, 0⟩
+def stDefaultC : St :=
+  ⟨Gen.charStateDefault.1, Gen.charStateDefault.2.1, Gen.charStateDefault.2.2.1, Gen.charStateDefault.2.2.2⟩
 
 def removeInvalidChecks (states : Array St) (h : Helper) (b : Nat) : Except BuildErr (Array St) := do
   let mut states := states
